@@ -17,17 +17,23 @@
 (define-fun-rec toSL ((l Lst)) SLst (ite ((_ is LNil) l) SNil (SCons (sv (hd l)) (toSL (tl l)))))
 (define-fun crossHead ((l Lst)) Bool (and (not (= l LNil)) (or ((_ is VMap) (hd l)) ((_ is VList) (hd l)))))
 ; result of a list path [pattern?, key, key, ...] looked up from obj / from the unique matching document
-(define-fun listPathOK ((h (Array Int Val)) (obj Val) (ds RLst) (l Lst) (res Val) (err Bool)) Bool
+; (listPathE / listPathF: whether the look-up fails, and its value when it does not)
+(define-fun listPathE ((h (Array Int Val)) (obj Val) (ds RLst) (l Lst)) Bool
   (ite (crossHead l)
-       (and (=> (not (= (countMatch h ds (hd l)) 1)) err)
-            (=> (not err) (= res (lookupF (select h (firstMatch h ds (hd l))) (toSL (tl l))))))
-       (and (= err (or (not (allStr l)) (lookErr obj (toSL l))))
-            (=> (not err) (= res (lookupF obj (toSL l)))))))
+       (or (not (= (countMatch h ds (hd l)) 1)) (not (allStr (tl l))) (lookErr (select h (firstMatch h ds (hd l))) (toSL (tl l))))
+       (or (not (allStr l)) (lookErr obj (toSL l)))))
+(define-fun listPathF ((h (Array Int Val)) (obj Val) (ds RLst) (l Lst)) Val
+  (ite (crossHead l) (lookupF (select h (firstMatch h ds (hd l))) (toSL (tl l))) (lookupF obj (toSL l))))
+(define-fun listPathOK ((h (Array Int Val)) (obj Val) (ds RLst) (l Lst) (res Val) (err Bool)) Bool
+  (and (= err (listPathE h obj ds l)) (=> (not err) (= res (listPathF h obj ds l)))))
 ; result of a string reference: YAML-parsed; a plain string is a dotted key path, a list is a list path
+(define-fun strPathE ((h (Array Int Val)) (obj Val) (ds RLst) (s String)) Bool
+  (ite (isErr (yamlParseE s)) true
+  (ite ((_ is VStr) (yamlParseF s)) (lookErr obj (strSplit (sv (yamlParseF s)) "."))
+  (ite ((_ is VList) (yamlParseF s)) (listPathE h obj ds (ls (yamlParseF s)))
+       true))))
+(define-fun strPathF ((h (Array Int Val)) (obj Val) (ds RLst) (s String)) Val
+  (ite ((_ is VStr) (yamlParseF s)) (lookupF obj (strSplit (sv (yamlParseF s)) "."))
+       (listPathF h obj ds (ls (yamlParseF s)))))
 (define-fun strPathOK ((h (Array Int Val)) (obj Val) (ds RLst) (s String) (res Val) (err Bool)) Bool
-  (ite (isErr (yamlParseE s)) err
-  (ite ((_ is VStr) (yamlParseF s))
-       (and (= err (lookErr obj (strSplit (sv (yamlParseF s)) ".")))
-            (=> (not err) (= res (lookupF obj (strSplit (sv (yamlParseF s)) ".")))))
-  (ite ((_ is VList) (yamlParseF s)) (listPathOK h obj ds (ls (yamlParseF s)) res err)
-       err))))
+  (and (= err (strPathE h obj ds s)) (=> (not err) (= res (strPathF h obj ds s)))))
